@@ -143,10 +143,10 @@ func (e *linEval) eval(v ssa.Value, depth int) (lin, bool) {
 }
 
 type region struct {
-	name     string
-	lo, hi   lin
-	pos      token.Pos
-	haveHi   bool
+	name   string
+	lo, hi lin
+	pos    token.Pos
+	haveHi bool
 }
 
 func checkC10(p *Prog, res *Result, tier string) {
@@ -158,6 +158,7 @@ func checkC10(p *Prog, res *Result, tier string) {
 	res.rule("C10-R2", "all revision encodings use binary.BigEndian", 8)
 	res.rule("C10-R3", "separator <= '$'; index key = version key at revision 0", 2)
 	res.rule("C10-R4", "index values are 8 or 8+1 bytes; parser and scanner agree on the constants", 6)
+	res.rule("C10-R5", "partition bounds derived from internal keys stay contiguous and are realigned to index keys, so all records of one key stay in one scanned interval (C13-R5)", 2)
 
 	cp := p.ssaPkg("pkg/backend/coder")
 	enc := p.implIn(r.EncObj, "pkg/backend/coder")
@@ -534,6 +535,13 @@ func checkC10(p *Prog, res *Result, tier string) {
 		}
 	}
 	_ = cp
+
+	// ---- R5: the bounds of partitioned scans enclose exactly the records of the keys they split (C13-R5) ----
+	sub13 := newResult("C13")
+	checkBorderContiguity(p, r, sub13, p.ssaPkg("pkg/backend/scanner"))
+	for _, o := range sub13.Obls {
+		res.add("C10-R5", o.Rule+" "+o.Construct, o.Status, o.Pos, o.Detail)
+	}
 }
 
 func constOf(p *Prog, pkgRel, name string) int64 {
